@@ -16,6 +16,10 @@ structure St where
   st : State := OutlineModel.UDP.init []
   keyInfo : List (Nat × Nat × Nat) := []
   allowAll : Bool := false
+  /-- NAT tables of the other listeners served by the same handler (Handle creates one per call);
+      the key list is shared. -/
+  others : List (Nat × State) := []
+  cur : Nat := 1
 
 def init : St := {}
 
@@ -53,7 +57,7 @@ def step (d : St) (args : List String) : St × String :=
   match args with
   | "keys" :: v :: [es] =>
     match parseEntries es with
-    | some (l, kis) => ({ st := OutlineModel.UDP.init l, keyInfo := kis, allowAll := v == "validator=allow" }, "ok")
+    | some (l, kis) => ({ st := OutlineModel.UDP.init l, keyInfo := kis, allowAll := v == "validator=allow", others := [], cur := 1 }, "ok")
     | none => (d, "bad-op")
   | ["update", es] =>
     match parseEntries es with
@@ -76,16 +80,41 @@ def step (d : St) (args : List String) : St × String :=
     match field? fs "c", (field? fs "src").bind parseHex?, (field? fs "port").bind parseNat?, (field? fs "body").bind parseHex? with
     | some c, some src, some port, some body =>
       match lookupNat d.st.nat c with
-      | none => (d, "no-assoc")
       | some a =>
         let (st', effs) := downstream dnsPortNat Gen.serverUDPBufferSize Gen.maxAddrLen d.st a src port body
         ({ d with st := st' }, showEffs effs)
+      | none =>
+        match d.others.find? (fun x => (lookupNat x.2.nat c).isSome) with
+        | none => (d, "no-assoc")
+        | some (k, s) =>
+          match lookupNat s.nat c with
+          | none => (d, "no-assoc")
+          | some a =>
+            let (s', effs) := downstream dnsPortNat Gen.serverUDPBufferSize Gen.maxAddrLen s a src port body
+            ({ d with others := d.others.map fun x => if x.1 == k then (k, s') else x }, showEffs effs)
     | _, _, _, _ => (d, "bad-op")
   | "expire" :: fs =>
     match field? fs "c" with
-    | some c => let (st', effs) := expire d.st c; ({ d with st := st' }, showEffs effs)
+    | some c =>
+      if (lookupNat d.st.nat c).isSome then
+        let (st', effs) := expire d.st c; ({ d with st := st' }, showEffs effs)
+      else match d.others.find? (fun x => (lookupNat x.2.nat c).isSome) with
+        | none => (d, "none")
+        | some (k, s) =>
+          let (s', effs) := expire s c
+          ({ d with others := d.others.map fun x => if x.1 == k then (k, s') else x }, showEffs effs)
     | none => (d, "bad-op")
-  | ["end"] => (d, s!"live={d.st.nat.length} stray=0")
+  | ["conn", k] =>
+    match k.toNat? with
+    | none => (d, "bad-op")
+    | some k =>
+      if k == d.cur then (d, "ok") else
+      let saved := (d.cur, d.st) :: d.others.filter (·.1 != d.cur)
+      let nxt : State := match saved.find? (·.1 == k) with
+        | some (_, s) => { s with list := d.st.list, nextSock := d.st.nextSock }
+        | none => { OutlineModel.UDP.init d.st.list with nextSock := d.st.nextSock }
+      ({ d with st := nxt, others := saved, cur := k }, "ok")
+  | ["end"] => (d, s!"live={d.st.nat.length + (d.others.filter (·.1 != d.cur)).foldl (fun n x => n + x.2.nat.length) 0} stray=0")
   | _ => (d, "bad-op")
 
 end OutlineModel.Drive.UDP
